@@ -1,6 +1,149 @@
 import PasslibVerif.Lemmas.B64
+import PasslibVerif.Lemmas.B64Std
+import PasslibVerif.Lemmas.B64Int
+/-
+C12 — Binary-to-text encodings are exact inverses and match their alphabets.
+Property theorems only; helper lemmas live in Lemmas/.  Everything named `Gen.B64.*`
+(chunk/tail bodies, alphabets, masks, int-codec expressions, offset tables) is regenerated
+from /repo on every run.
+-/
 namespace Props.C12
-open Py Model.B64
+open Py Gen.B64 Model.B64 Lemmas.B64 Spec.Rfc4648
+
+/-! ### the engines as constructed in the source -/
+theorem charmaps_ok :
+    CharmapOK h64.charmap ∧ CharmapOK h64big.charmap ∧ CharmapOK bcrypt64.charmap ∧ CharmapOK lpH64.charmap := by
+  decide
+
+theorem engine_constants :
+    h64.big = false ∧ h64big.big = true ∧ bcrypt64.big = true ∧ lpH64.big = false ∧
+    h64.charmap = HASH64_CHARS ∧ h64big.charmap = HASH64_CHARS ∧ bcrypt64.charmap = BCRYPT_CHARS ∧
+    lpH64.charmap = HASH64_CHARS := by decide
+
+/-! ### byte codecs: every byte string, every length, both bit orders -/
 theorem dec6_enc6 (big : Bool) (bs : Bytes) (h : Bytes.WF bs) : dec6 big (enc6 big bs) = bs :=
   Lemmas.B64.dec6_enc6 big bs h
+
+theorem decode_encode (e : Engine) (ok : CharmapOK e.charmap) (bs : Bytes) (h : Bytes.WF bs) :
+    decodeBytes e (encodeBytes e bs) = .ok bs := Lemmas.B64.decode_encode e ok bs h
+
+theorem decode_encode_h64 (bs : Bytes) (h : Bytes.WF bs) : decodeBytes h64 (encodeBytes h64 bs) = .ok bs :=
+  Lemmas.B64.decode_encode h64 charmaps_ok.1 bs h
+theorem decode_encode_h64big (bs : Bytes) (h : Bytes.WF bs) : decodeBytes h64big (encodeBytes h64big bs) = .ok bs :=
+  Lemmas.B64.decode_encode h64big charmaps_ok.2.1 bs h
+theorem decode_encode_bcrypt64 (bs : Bytes) (h : Bytes.WF bs) : decodeBytes bcrypt64 (encodeBytes bcrypt64 bs) = .ok bs :=
+  Lemmas.B64.decode_encode bcrypt64 charmaps_ok.2.2.1 bs h
+
+theorem encode_alphabet (e : Engine) (ok : CharmapOK e.charmap) (bs : Bytes) (h : Bytes.WF bs) :
+    ∀ c ∈ encodeBytes e bs, c ∈ e.charmap := Lemmas.B64.encode_alphabet e ok bs h
+
+/-- length = ceil(4n/3) -/
+theorem encode_length (e : Engine) (bs : Bytes) : (encodeBytes e bs).length = (4 * bs.length + 2) / 3 :=
+  Lemmas.B64.encode_length e bs
+
+/-- big-endian engines are RFC 4648 base64 (values), hence standard base64 under alphabet translation -/
+theorem encode_eq_rfc4648_big (e : Engine) (hb : e.big = true) (bs : Bytes) (h : Bytes.WF bs) :
+    encodeBytes e bs = (groups64 bs).map (encode64 e.charmap) := by
+  unfold encodeBytes; rw [hb, enc6_big_eq_rfc bs h]
+
+/-- little-endian engines are the crypt(3) packing -/
+theorem encode_eq_crypt_little (e : Engine) (hb : e.big = false) (bs : Bytes) (h : Bytes.WF bs) :
+    encodeBytes e bs = (groups64le bs).map (encode64 e.charmap) := by
+  unfold encodeBytes; rw [hb, enc6_little_eq_crypt bs h]
+
+/-- libpass' copy of the encoder is the same function -/
+theorem libpass_encode_eq (e : Engine) (bs : Bytes) : lpEncodeBytes e bs = encodeBytes e bs := by
+  unfold lpEncodeBytes encodeBytes; rw [lpEnc6_eq]
+
+/-! ### wrong-length / out-of-alphabet input is a value error -/
+theorem decode_len1mod4_error (e : Engine) (s : Bytes) (h : s.length % 4 = 1) :
+    decodeBytes e s = .error .valueError := Lemmas.B64.decode_len1mod4_error e s h
+
+theorem decode_bad_char_error (e : Engine) (s : Bytes) (c : Nat) (hc : c ∈ s) (hf : c ∉ e.charmap) :
+    decodeBytes e s = .error .valueError := Lemmas.B64.decode_bad_char_error e s c hc hf
+
+/-! ### padding bits: ignored by decode; the canonical form is the cleared form -/
+theorem decode_ignores_padding_bits (big : Bool) (vs : List Nat) (h : ∀ v ∈ vs, v < 64) :
+    dec6 big (clearPad big vs) = dec6 big vs := dec6_clearPad big vs h
+
+theorem repair_idempotent (big : Bool) (vs : List Nat) : clearPad big (clearPad big vs) = clearPad big vs :=
+  clearPad_idem big vs
+
+/-- re-encoding the decoded value gives exactly the padding-cleared string: only the unused
+    bits can differ between a string and its canonical form -/
+theorem canonical_form (big : Bool) (vs : List Nat) (h : ∀ v ∈ vs, v < 64) (hl : vs.length % 4 ≠ 1) :
+    enc6 big (dec6 big vs) = clearPad big vs := enc6_dec6_eq_clearPad big vs h hl
+
+theorem canonical_iff (big : Bool) (vs : List Nat) (h : ∀ v ∈ vs, v < 64) (hl : vs.length % 4 ≠ 1) :
+    enc6 big (dec6 big vs) = vs ↔ clearPad big vs = vs := by
+  rw [canonical_form big vs h hl]
+
+/-! ### integer codecs -/
+theorem decodeInt_encodeInt (e : Engine) (ok : CharmapOK e.charmap) (bits v : Nat) (hv : v < 2 ^ bits) :
+    decodeInt e (encodeInt e v bits) bits = .ok v := Lemmas.B64.decodeInt_encodeInt e ok bits v hv
+
+theorem int_widths : encode_int30_bits = 30 ∧ encode_int64_bits = 64 ∧ encode_int12_max + 1 = 2 ^ 12 ∧
+    encode_int24_max + 1 = 2 ^ 24 ∧ encode_int30_max + 1 = 2 ^ 30 ∧ encode_int64_max + 1 = 2 ^ 64 := by decide
+
+theorem encodeInt_range_error (e : Engine) (v : Nat) :
+    (v > 63 → encodeInt6 e v = .error .valueError) ∧
+    (v ≥ 2 ^ 12 → encodeInt12 e v = .error .valueError) ∧
+    (v ≥ 2 ^ 24 → encodeInt24 e v = .error .valueError) ∧
+    (v ≥ 2 ^ 30 → encodeInt30 e v = .error .valueError) ∧
+    (v ≥ 2 ^ 64 → encodeInt64 e v = .error .valueError) := by
+  refine ⟨?_, ?_, ?_, ?_, ?_⟩ <;> intro h
+  · simp [encodeInt6, h]
+  · have : v > encode_int12_max := by simp only [encode_int12_max]; omega
+    simp [encodeInt12, this]
+  · have : v > encode_int24_max := by simp only [encode_int24_max]; omega
+    simp [encodeInt24, this]
+  · have : v > encode_int30_max := by simp only [encode_int30_max]; omega
+    simp [encodeInt30, this]
+  · have : v > encode_int64_max := by simp only [encode_int64_max]; omega
+    simp [encodeInt64, this]
+
+/-- the hand-unrolled 12/24-bit fast paths equal the generic codec -/
+theorem fast_int_eq_generic (e : Engine) (v : Nat) :
+    (v < 2 ^ 12 → encodeInt12 e v = .ok (encodeInt e v 12)) ∧
+    (v < 2 ^ 24 → encodeInt24 e v = .ok (encodeInt e v 24)) := by
+  refine ⟨?_, ?_⟩ <;> intro h
+  · have : ¬ v > encode_int12_max := by simp only [encode_int12_max]; omega
+    cases hb : e.big <;>
+      simp [encodeInt12, this, encodeInt, encodeIntOffsets, encode_int12_raw, hb, List.range, List.range.loop]
+  · have : ¬ v > encode_int24_max := by simp only [encode_int24_max]; omega
+    cases hb : e.big <;>
+      simp [encodeInt24, this, encodeInt, encodeIntOffsets, encode_int24_raw, hb, List.range, List.range.loop]
+
+/-! ### transposition tables used by the hash formats -/
+def IsPerm (offs : List Nat) : Prop := ∀ j, j < offs.length → j ∈ offs
+instance (offs : List Nat) : Decidable (IsPerm offs) := by unfold IsPerm; infer_instance
+
+theorem transpose_tables_are_permutations :
+    IsPerm md5_transpose_map ∧ IsPerm sha256_transpose_map ∧ IsPerm sha512_transpose_map ∧
+    IsPerm sun_md5_chk_offsets ∧ IsPerm lp_sha256_transpose_map ∧ IsPerm lp_sha512_transpose_map ∧
+    md5_transpose_map.length = 16 ∧ sha256_transpose_map.length = 32 ∧ sha512_transpose_map.length = 64 ∧
+    lp_sha256_transpose_map = sha256_transpose_map ∧ lp_sha512_transpose_map = sha512_transpose_map := by
+  decide +kernel
+
+/-- sha1_crypt's table repeats an offset (it pads 20 bytes to 21): encode-only by design -/
+theorem sha1_table_not_permutation : ¬ IsPerm sha1_chk_offsets := by decide
+
+/-! ### unpadded / dot-variant base64 and base32 helpers -/
+theorem b64s_roundtrip (bs : Bytes) (h : Bytes.WF bs) : b64sDecode (b64sEncode bs) = some (.ok bs) :=
+  Lemmas.B64.b64s_roundtrip bs h
+theorem ab64_roundtrip (bs : Bytes) (h : Bytes.WF bs) : ab64Decode (ab64Encode bs) = some (.ok bs) :=
+  Lemmas.B64.ab64_roundtrip bs h
+theorem ab64_alphabet : AB64_CHARS = stdAlphabet.map plusToDot ∧ BASE64_CHARS = stdAlphabet :=
+  Lemmas.B64.ab64_alphabet
+theorem b32_roundtrip (bs : Bytes) (h : Bytes.WF bs) : b32decode (b32encode bs) = .ok bs :=
+  Lemmas.B64.b32_roundtrip bs h
+theorem b32_typo (s : Bytes) : b32decode (s.map typo) = b32decode s := Lemmas.B64.b32_typo s
+theorem b32_lower (s : Bytes) : b32decode (s.map lower) = b32decode s := Lemmas.B64.b32_lower s
+
+/-! ### non-vacuity: the hypotheses are met by concrete non-trivial values -/
+example : Bytes.WF [0, 255, 128, 7] ∧ decodeBytes h64 (encodeBytes h64 [0, 255, 128, 7]) = .ok [0, 255, 128, 7] := by decide
+example : (∀ v ∈ [5, 63, 62], v < 64) ∧ [5, 63, 62].length % 4 ≠ 1 ∧ clearPad true [5, 63, 62] ≠ [5, 63, 62] := by decide
+example : (1000 : Nat) < 2 ^ 12 ∧ decodeInt h64big (encodeInt h64big 1000 12) 12 = .ok 1000 := by decide
+example : b32decode (b32encode [109, 101]) = .ok [109, 101] := by decide
+
 end Props.C12
